@@ -30,6 +30,7 @@ def gen_workbook(rng):
     if rng.random() < 0.6:
         # "mirror" cells (a formula that is nothing but a reference) and readers of mirrors: an override of the mirror must reach its readers
         s1.update({'A2': '=Main!A1', 'A3': '=A2+1', 'B1': '=A2', 'B3': '=B1*2+SUM(A2:A3)'})
+    s1.update({'C1': 'name', 'C2': '=C1&A1', 'D3': '=C1&"-"&C1'})
     s2 = {'A1': 70 + rng.randint(1, 9), 'B2': "=A1+'0'!A1+Main!A1"}
     return [['Main', s0], ['Other', s1], ['0', s2]]
 
@@ -63,6 +64,8 @@ def gen_ops(rng, n, writes=True):
             if writes:
                 ops.append(['set', [[[0, 0, rng.randrange(2)], rng.choice([5, 7, 12])]]])
             ops.append(['get', [0, 1, rng.randrange(3)]])
+        elif rng.random() < 0.25 and writes:
+            ops += [['get', [1, 2, 1]], ['set', [[[1, 2, 0], rng.choice([5, 2.5, True])]]], ['get', [1, 2, 1]], ['get', [1, 3, 2]], ['set', [[[1, 2, 0], 'again']]], ['get', [1, 2, 1]]]
         elif rng.random() < 0.35 and writes:
             v1, v2 = rng.choice([(1, True), (True, 1), (0, False), (False, 0), (1, 1.0), (2.0, 2), (0.0, 0)])
             ops += [['set', [[[0, 0, 0], v1]]], ['get', [0, 1, rng.randrange(3)]], ['set', [[[0, 0, 0], v2]]], ['get', [0, 0, 0]], ['get', [0, 2, 2]], ['many', [[0, 0, 0], [0, 1, 0]]]]
@@ -120,6 +123,7 @@ def run_history(cls, ops, reuse=True):
     def outc(v):
         return ('exc', v.name) if isinstance(v, Raised) else ('ok', v)
     obs, vals = [], []
+    held_get = {}
     held = {}          # the caller's own Cell objects, reused (with a new value) when the same spelling is written again
 
     undo = []
@@ -147,7 +151,15 @@ def run_history(cls, ops, reuse=True):
                     held[repr(a)] = c_               # kept by the caller after a successful call
                 o, v = ('done', []), []
             elif kind == 'get':
-                c = ex.get_cell(mkcell(op[1]))
+                a_ = op[1]
+                if reuse and all(isinstance(x, int) for x in a_) and (a_[1], a_[2]) in held_get:
+                    qc = held_get[(a_[1], a_[2])]          # the caller's own query cell, pointed at another sheet
+                    qc.title = a_[0]
+                else:
+                    qc = mkcell(a_)
+                    if all(isinstance(x, int) for x in a_):
+                        held_get[(a_[1], a_[2])] = qc
+                c = ex.get_cell(qc)
                 o, v = ('done', [c.uid]), [(c.uid, outc(c.value))]
             elif kind == 'many':
                 cs = ex.get_cells([mkcell(a) for a in op[1]])
